@@ -74,6 +74,10 @@ pub struct Compiler {
 
     /// Non-exported namespaces declared inside namespace bodies, with their scope
     ns_locals: Vec<(JsString, Option<usize>)>,
+
+    /// Stack address when compilation started (shared with nested function compilers):
+    /// expressions nested too deeply are refused before the recursion exhausts the stack.
+    stack_base: usize,
 }
 
 /// What a derived-class constructor has to initialize once `super(...)` has returned.
@@ -142,7 +146,26 @@ impl Compiler {
             ns_path: Vec::new(),
             ns_exports: FxHashMap::default(),
             ns_locals: Vec::new(),
+            stack_base: 0,
         }
+    }
+
+    /// Native stack the recursive compilation may use (threads commonly have 2 MB)
+    const STACK_BUDGET: usize = 768 * 1024;
+
+    /// Refuse further nesting when the recursion has used its stack budget.
+    #[inline(never)]
+    fn check_depth(&mut self) -> Result<(), JsError> {
+        let marker = 0u8;
+        let here = &marker as *const u8 as usize;
+        if self.stack_base == 0 {
+            self.stack_base = here;
+        } else if self.stack_base.abs_diff(here) > Self::STACK_BUDGET {
+            return Err(JsError::syntax_error_simple(
+                "Program is nested too deeply to compile",
+            ));
+        }
+        Ok(())
     }
 
     /// Create a new compiler with a source file path for stack traces
